@@ -79,6 +79,11 @@ CLAIMED = {
         text="Theorems over an arbitrary field about the executable model of paint.transformed (exact denotation per branch, encodability), constants regenerated from fixed.py and proved equal to the OpenType ranges; the model (also of the gradient transforms and the uniform/residual split) is tied to the code by evaluating it inside Coq on the stratified inputs the real functions ran on, and the implementation's outputs are judged by executable property predicates.",
         ref="DESIGN.md 8 C16",
     ),
+    "C17": dict(
+        technique="machine-checked proof in Coq (acceptance of a build's inputs <-> pairwise distinct glyph names; master validation) + correspondence by vm_compute + negative tests through the real CLI for every defect class, position and format",
+        text="Unbounded theorems: the input loop accepts a list of glyph inputs exactly when their glyph names are pairwise distinct, so an accepted build maps sources to glyphs injectively (nothing merged, nothing missing); accepted master sets are non-empty, have unique source names per master and equal name sets. Tied to write_font by running the real acceptance on generated sequence lists. End to end through the real CLI: each defect class (duplicate codepoints/sequence/file name, colliding glyph names, malformed XML, unparsable colour, unknown spreadMethod, palette index conflict, oversize CBDT bitmap, missing viewBox) at random positions among 0-5 valid sources in every format it applies to must exit non-zero and leave no fresh font; a valid control must build. Found and fixed: duplicate inputs were merged silently with exit 0 (F2).",
+        ref="DESIGN.md 8 C17",
+    ),
     "C19": dict(
         technique="machine-checked proof in Coq (isometry invariance of the exact normal form over any field; reuse-is-taken theorem on the cache model) + end-to-end count of shared outlines in built fonts",
         text="Unbounded theorems over any field: the exact normal form used to recognise shapes (first significant vector to (1,0), first significant y to 1) is invariant under every rotation and reflection (c^2+s^2=1), norms that drive the significance thresholds are preserved, translations do not enter; on the cache model reuse is taken whenever a donor with the same normal form exists and the recogniser returns a representable affine, and only tolerance -1 disables it. End to end: fonts built from a few structurally different base shapes and congruent copies (exact grid isometries and generic angles) in glyf_colr_1, glyf_colr_0 and picosvg: every copy must draw from one outline glyph / one <path>, and with -1 all are separate. Known finding F14: picosvg snaps the normal form to multiples of tolerance/10, so copies whose normal form has a coordinate on a rounding boundary are missed.",
